@@ -2,6 +2,7 @@ import GoguVerif.Spec.C17
 import GoguVerif.Model.C17
 import GoguVerif.Lemmas.C17
 import GoguVerif.Lemmas.C17Log
+import GoguVerif.Lemmas.C17Hist
 /-!
 # C17 — property theorems (Memoize: one computation per key at a time, cached value served)
 
@@ -893,8 +894,12 @@ def specCall (cfg : Cfg) (s : State) (g : EvLog) (execs : List Spec.C17.Exec) (c
            out := resOut r, val := resVal r, src := srcIndex execs (s.src c) }
   | _, _, _, _, _ => none
 
+/-- the callers `ids` rendered against the executions of the callers `L` (for the source indices) -/
+def specCallsOn (cfg : Cfg) (s : State) (g : EvLog) (L ids : List Nat) : List Spec.C17.Call :=
+  ids.filterMap (specCall cfg s g (specExecs cfg s g L))
+
 def specCalls (cfg : Cfg) (s : State) (g : EvLog) (ids : List Nat) : List Spec.C17.Call :=
-  ids.filterMap (specCall cfg s g (specExecs cfg s g ids))
+  specCallsOn cfg s g ids ids
 
 theorem specCall_some {execs : List Spec.C17.Exec} {c : Nat} {x : Spec.C17.Call}
     (h : specCall cfg s g execs c = some x) :
@@ -934,11 +939,11 @@ theorem srcIndex_exec (execs : List Spec.C17.Exec) (l : Nat) :
 
 /-- **monitor clause `joiners-get-the-executions-result`**: on the log of every run, every returned
 caller whose source index points at an execution has that execution's key, outcome and value -/
-theorem monitor_srcConsistent (h : ReachableLog cfg (init c0 now0) s g) (ids : List Nat) :
-    (specCalls cfg s g ids).all (Spec.C17.srcConsistent (specExecs cfg s g ids)) = true := by
+theorem monitor_srcConsistent (h : ReachableLog cfg (init c0 now0) s g) (L ids : List Nat) :
+    (specCallsOn cfg s g L ids).all (Spec.C17.srcConsistent (specExecs cfg s g L)) = true := by
   simp only [List.all_eq_true]
   intro x hx
-  simp only [specCalls, List.mem_filterMap] at hx
+  simp only [specCallsOn, List.mem_filterMap] at hx
   obtain ⟨c, _, hc⟩ := hx
   obtain ⟨r, i, t, hd, _, _, _, hkey, _, _, hout, hval, hsrc, _, _⟩ := specCall_some hc
   unfold Spec.C17.srcConsistent
@@ -949,7 +954,7 @@ theorem monitor_srcConsistent (h : ReachableLog cfg (init c0 now0) s g) (ids : L
     cases y with
     | hit v => simp [srcIndex]
     | exec l =>
-      rcases srcIndex_exec (specExecs cfg s g ids) l with h1 | ⟨j, e, h1, he, hj⟩
+      rcases srcIndex_exec (specExecs cfg s g L) l with h1 | ⟨j, e, h1, he, hj⟩
       · rw [h1]; simp
       · rw [h1]
         simp only [Bool.or_eq_true]
@@ -975,11 +980,11 @@ theorem monitor_srcConsistent (h : ReachableLog cfg (init c0 now0) s g) (ids : L
 
 
 /-- **monitor clause `result-is-value-or-error`** -/
-theorem monitor_resultShape (ids : List Nat) :
-    (specCalls cfg s g ids).all (fun c => c.out == 0 || c.out == 1) = true := by
+theorem monitor_resultShape (L ids : List Nat) :
+    (specCallsOn cfg s g L ids).all (fun c => c.out == 0 || c.out == 1) = true := by
   simp only [List.all_eq_true]
   intro x hx
-  simp only [specCalls, List.mem_filterMap] at hx
+  simp only [specCallsOn, List.mem_filterMap] at hx
   obtain ⟨c, _, hc⟩ := hx
   obtain ⟨r, _, _, _, _, _, _, _, _, _, hout, _⟩ := specCall_some hc
   cases r <;> simp [hout, resOut]
@@ -1023,8 +1028,9 @@ theorem monitor_leadsAtMostOnce (ids : List Nat) (hn : ids.Nodup) :
 and once the scenario's callers have returned: every execution in the log belongs to a returned
 caller of the same key, lies strictly inside that caller's call, and started at the very instant the
 caller was invoked -/
-theorem monitor_execOwned (h : ReachableLogP cfg (init c0 now0) s g) (ids : List Nat) (hq : Quiescent s ids) :
-    (specExecs cfg s g ids).all (Spec.C17.execOwned (specCalls cfg s g ids)) = true := by
+theorem monitor_execOwned (h : ReachableLogP cfg (init c0 now0) s g) (L ids : List Nat)
+    (hsub : ∀ l ∈ L, l ∈ ids) (hq : Quiescent s ids) :
+    (specExecs cfg s g L).all (Spec.C17.execOwned (specCallsOn cfg s g L ids)) = true := by
   have h' := reachableLogP_reachableLog h
   simp only [List.all_eq_true]
   intro e he
@@ -1034,13 +1040,13 @@ theorem monitor_execOwned (h : ReachableLogP cfg (init c0 now0) s g) (ids : List
   obtain ⟨i, a', g1, g2, g3, g4, g5, _⟩ := log_execution_wellformed h' l b h2
   rw [h1] at g2; cases g2
   have hdone : ∃ r', s.pc l = .done r' := by
-    rcases hq l hl with hp | hp
+    rcases hq l (hsub l hl) with hp | hp
     · have := (sinv_reachable h').2.loc l
       simp only [SLocal, hp] at this
       rw [this.1] at g1; cases g1
     · exact hp
   obtain ⟨r', hd⟩ := hdone
-  obtain ⟨x, hx⟩ := specCall_complete h' (specExecs cfg s g ids) l r' hd
+  obtain ⟨x, hx⟩ := specCall_complete h' (specExecs cfg s g L) l r' hd
   obtain ⟨r'', i', t, hd', j1, j2, j3, j4, j5, j6, _, _, _, j10, _⟩ := specCall_some hx
   rw [g1] at j1; cases j1
   have hbt : b < t := by
@@ -1061,24 +1067,24 @@ theorem monitor_execOwned (h : ReachableLogP cfg (init c0 now0) s g) (ids : List
     · exact absurd rfl hne
   simp only [Spec.C17.execOwned, List.any_eq_true]
   refine ⟨x, ?_, ?_⟩
-  · simp only [specCalls, List.mem_filterMap]
-    exact ⟨l, hl, hx⟩
+  · simp only [specCallsOn, List.mem_filterMap]
+    exact ⟨l, hsub l hl, hx⟩
   · simp only [Bool.and_eq_true, beq_iff_eq, decide_eq_true_eq]
     refine ⟨⟨⟨⟨by rw [j3, k4], by rw [j4, k1]⟩, by rw [j5, k2]; omega⟩, by rw [j6, k3]; omega⟩, htim⟩
 
 
 /-- the rendered call of the caller that led an execution is what `leaderRet` finds -/
-theorem leaderRet_of_done (h : ReachableLog cfg (init c0 now0) s g) (ids : List Nat) (l : Nat) (hl : l ∈ ids)
+theorem leaderRet_of_done (h : ReachableLog cfg (init c0 now0) s g) (L ids : List Nat) (l : Nat) (hl : l ∈ ids)
     (r : Res) (tl : Nat) (hd : s.pc l = .done r) (hr : g.retAt l = some tl) (e : Spec.C17.Exec)
     (he : e.leader = (l : Int)) :
-    Spec.C17.leaderRet (specCalls cfg s g ids) e = some (tl : Int) := by
-  obtain ⟨x, hx⟩ := specCall_complete h (specExecs cfg s g ids) l r hd
-  have hmem : x ∈ specCalls cfg s g ids := by
-    simp only [specCalls, List.mem_filterMap]; exact ⟨l, hl, hx⟩
+    Spec.C17.leaderRet (specCallsOn cfg s g L ids) e = some (tl : Int) := by
+  obtain ⟨x, hx⟩ := specCall_complete h (specExecs cfg s g L) l r hd
+  have hmem : x ∈ specCallsOn cfg s g L ids := by
+    simp only [specCallsOn, List.mem_filterMap]; exact ⟨l, hl, hx⟩
   obtain ⟨_, _, t, _, _, j2, j3, _, _, j6, _⟩ := specCall_some hx
   rw [hr] at j2; cases j2
   unfold Spec.C17.leaderRet
-  cases hf : (specCalls cfg s g ids).find? (fun c => c.id == e.leader) with
+  cases hf : (specCallsOn cfg s g L ids).find? (fun c => c.id == e.leader) with
   | none =>
     rw [List.find?_eq_none] at hf
     exact absurd (by simp [j3, he]) (hf x hmem)
@@ -1086,7 +1092,7 @@ theorem leaderRet_of_done (h : ReachableLog cfg (init c0 now0) s g) (ids : List 
     have hy := List.find?_some hf
     have hym := List.mem_of_find?_eq_some hf
     simp only [beq_iff_eq] at hy
-    simp only [specCalls, List.mem_filterMap] at hym
+    simp only [specCallsOn, List.mem_filterMap] at hym
     obtain ⟨c', _, hc'⟩ := hym
     obtain ⟨_, _, _, _, _, _, i3, _⟩ := specCall_some hc'
     have : c' = l := by rw [i3, he] at hy; omega
@@ -1100,13 +1106,14 @@ virtual clock: every returned caller whose result is an execution's very result 
 before the caller returned, the caller was invoked before the execution's own caller returned, and
 the caller returned at `max (its invocation instant) (the instant the execution ended)`.
 (`exp`, `e0` — the cache part of the monitor — play no role for these callers.) -/
-theorem monitor_hasSource_exec (h : ReachableLogP cfg (init c0 now0) s g) (ids : List Nat)
-    (exp : Int) (e0 : Int → Spec.C17.Entry) (x : Spec.C17.Call) (hx : x ∈ specCalls cfg s g ids)
+theorem monitor_hasSource_exec (h : ReachableLogP cfg (init c0 now0) s g) (L ids : List Nat)
+    (hsub : ∀ l ∈ L, l ∈ ids)
+    (exp : Int) (e0 : Int → Spec.C17.Entry) (x : Spec.C17.Call) (hx : x ∈ specCallsOn cfg s g L ids)
     (hsrc : x.src ≥ 0) :
-    Spec.C17.hasSource exp e0 (specCalls cfg s g ids) (specExecs cfg s g ids) x = true := by
+    Spec.C17.hasSource exp e0 (specCallsOn cfg s g L ids) (specExecs cfg s g L) x = true := by
   have h' := reachableLogP_reachableLog h
   have hr := reachableLog_reachable h'
-  simp only [specCalls, List.mem_filterMap] at hx
+  simp only [specCallsOn, List.mem_filterMap] at hx
   obtain ⟨c, hcid, hc⟩ := hx
   obtain ⟨r, i, t, hd, j1, j2, _, jkey, jinv, jret, jout, jval, jsrc, jti, jtt⟩ := specCall_some hc
   -- the source is an execution
@@ -1117,7 +1124,7 @@ theorem monitor_hasSource_exec (h : ReachableLogP cfg (init c0 now0) s g) (ids :
   | hit v => rw [jsrc, hs] at hsrc; simp [srcIndex] at hsrc
   | exec l =>
   rw [hs] at jsrc
-  rcases srcIndex_exec (specExecs cfg s g ids) l with h1 | ⟨j, e, h1, he, hj⟩
+  rcases srcIndex_exec (specExecs cfg s g L) l with h1 | ⟨j, e, h1, he, hj⟩
   · rw [jsrc, h1] at hsrc; omega
   · rw [h1] at jsrc
     have hmem := List.mem_of_getElem? he
@@ -1151,7 +1158,7 @@ theorem monitor_hasSource_exec (h : ReachableLogP cfg (init c0 now0) s g) (ids :
         | ran z => simp only [SLocal, hp] at this; rw [this.2] at m9; cases m9
         | setDone z => simp only [SLocal, hp] at this; rw [this.2] at m9; cases m9
       obtain ⟨rl, hld⟩ := hld
-      have hlr := leaderRet_of_done h' ids l' hl'ids rl tl hld m9 e k4
+      have hlr := leaderRet_of_done h' L ids l' (hsub l' hl'ids) rl tl hld m9 e k4
       -- instants
       have htime : x.retT = max x.invT e.endT := by
         have tl' := (tinv_reachable h).loc c
@@ -1166,7 +1173,7 @@ theorem monitor_hasSource_exec (h : ReachableLogP cfg (init c0 now0) s g) (ids :
           have e2 : e.endT = te := Option.some.inj (k8.symm.trans n2)
           have e3 : x.retT = te := Option.some.inj (jtt.symm.trans n3)
           rw [e1, e2, e3]; omega
-      have hjlt : j < (specExecs cfg s g ids).length := by
+      have hjlt : j < (specExecs cfg s g L).length := by
         rcases List.getElem?_eq_some_iff.1 he with ⟨hlt, _⟩; exact hlt
       unfold Spec.C17.hasSource
       simp only [Bool.or_eq_true, List.any_eq_true]
@@ -1196,5 +1203,713 @@ caller returned, with the deadline counted from that execution's end -/
 theorem log_hit_value_live (h : ReachableLogP cfg (init c0 now0) s g) (c : Nat) (v : Int)
     (hs : s.src c = some (.hit v)) : HitSource cfg c0 s g c v :=
   (cinv_reachable h).hit c v hs
+
+
+/-! ## the cache-history bridge: the remaining monitor clauses on the rendered log
+
+`ReachableH cfg (init c0 now0) s g h`: a run under the virtual clock with both logs (`Model/C17.lean`).
+The executions are rendered in start order (`h.order`), as the harness prints them; the callers are
+any list `ids` that contains every caller whose function ran and all of which have returned (or were
+never invoked).  Helper lemmas first. -/
+
+variable {h : HLog}
+
+theorem specExec_complete (hl : ReachableLog cfg (init c0 now0) s g) (l b : Nat) (he : g.endAt l = some b) :
+    ∃ e, specExec cfg s g l = some e := by
+  obtain ⟨i, a, _, h2, _, _, _, r, h3⟩ := log_execution_wellformed hl l b he
+  have tk := timok_reachable hl
+  have k1 := tk.start l
+  have k2 := tk.end l
+  rw [h2] at k1; rw [he] at k2
+  obtain ⟨ta, hta⟩ := Option.isSome_iff_exists.1 k1
+  obtain ⟨tb, htb⟩ := Option.isSome_iff_exists.1 k2
+  simp only [specExec, h2, he, h3, hta, htb]
+  exact ⟨_, rfl⟩
+
+/-- the rendering of `l`'s execution (meaningful once it has ended) -/
+def execD (cfg : Cfg) (s : State) (g : EvLog) (l : Nat) : Spec.C17.Exec :=
+  match specExec cfg s g l with
+  | some e => e
+  | none => default
+
+theorem filterMap_eq_map {α β : Type} (f : α → Option β) (d : α → β) :
+    ∀ (L : List α), (∀ x ∈ L, f x = some (d x)) → L.filterMap f = L.map d
+  | [], _ => rfl
+  | x :: L, hx => by
+    rw [List.filterMap_cons, hx x List.mem_cons_self, List.map_cons,
+      filterMap_eq_map f d L (fun y hy => hx y (List.mem_cons_of_mem _ hy))]
+
+/-- the hypotheses under which the rendered log is complete -/
+structure Settled (cfg : Cfg) (c0 : Nat → Cell) (now0 : Int) (s : State) (g : EvLog) (h : HLog) (ids : List Nat) :
+    Prop where
+  run : ReachableH cfg (init c0 now0) s g h
+  now0 : 0 ≤ now0
+  quiet : Quiescent s ids
+  sub : ∀ l ∈ h.order, l ∈ ids
+
+theorem Settled.all {ids : List Nat} (st : Settled cfg c0 now0 s g h ids) : AllInv cfg c0 s g h :=
+  allinv_reachable st.now0 st.run
+
+theorem Settled.logP {ids : List Nat} (st : Settled cfg c0 now0 s g h ids) :
+    ReachableLogP cfg (init c0 now0) s g := reachableH_logP st.run
+
+theorem Settled.log {ids : List Nat} (st : Settled cfg c0 now0 s g h ids) :
+    ReachableLog cfg (init c0 now0) s g := reachableLogP_reachableLog st.logP
+
+/-- a caller whose function started has, in a settled state, returned as the leader of its execution -/
+theorem settled_leader_done {ids : List Nat} (st : Settled cfg c0 now0 s g h ids) (l : Nat) (hl : l ∈ h.order) :
+    ∃ r b, s.pc l = .done r ∧ s.src l = some (.exec l) ∧ s.execRes l = some r ∧ g.endAt l = some b := by
+  have A := st.all
+  obtain ⟨a, ha⟩ := (A.ord.mem l).1 hl
+  have hsrc := (log_start_only_by_leader st.log l a ha).1
+  rcases st.quiet l (st.sub l hl) with hp | ⟨r, hp⟩
+  · have := A.sinv.loc l
+    simp only [SLocal, hp] at this
+    rw [this.2.2.1] at ha; cases ha
+  · have h1 := A.inv.loc l
+    have h2 := A.sinv.loc l
+    simp only [Local, hp] at h1
+    simp only [SLocal, hp, hsrc] at h2
+    rcases h1 with ⟨v, _, k, _⟩ | ⟨_, _, k, _⟩ | ⟨y, k, _, k3, _, _, k6⟩
+    · rw [hsrc] at k; cases k
+    · rcases h2 with ⟨_, i, a', b, t, _, _, m3, _⟩ | ⟨hne, _⟩
+      · exact ⟨r, b, hp, hsrc, k, m3⟩
+      · exact absurd rfl hne
+    · rw [hsrc] at k; cases k
+      rw [k6] at k3; cases k3
+
+theorem order_rendered {ids : List Nat} (st : Settled cfg c0 now0 s g h ids) (l : Nat) (hl : l ∈ h.order) :
+    specExec cfg s g l = some (execD cfg s g l) := by
+  obtain ⟨r, b, _, _, _, hb⟩ := settled_leader_done st l hl
+  obtain ⟨e, he⟩ := specExec_complete st.log l b hb
+  simp only [execD, he]
+
+theorem execs_eq_map {ids : List Nat} (st : Settled cfg c0 now0 s g h ids) :
+    specExecs cfg s g h.order = h.order.map (execD cfg s g) :=
+  filterMap_eq_map _ _ _ (fun l hl => order_rendered st l hl)
+
+/-- `startsBefore g a b`: if both functions started, `a`'s started first -/
+def startsBefore (g : EvLog) (a b : Nat) : Prop :=
+  ∀ x y, g.startAt a = some x → g.startAt b = some y → x < y
+
+theorem pk_execD_iff {ids : List Nat} (st : Settled cfg c0 now0 s g h ids) (k l : Nat) (hl : l ∈ h.order) :
+    Pk (k : Int) (execD cfg s g l) = true ↔ (cfg.key l = k ∧ ∃ v, s.execRes l = some (.ok v)) := by
+  obtain ⟨a, b, r, _, _, h3, k1, _, _, _, k5, _⟩ := specExec_some (order_rendered st l hl)
+  simp only [Pk, Spec.C17.Exec.success, Bool.and_eq_true, beq_iff_eq, bne_iff_ne, ne_eq, k1, k5]
+  constructor
+  · rintro ⟨h1, h2⟩
+    refine ⟨by omega, ?_⟩
+    cases r with
+    | ok v => exact ⟨v, h3⟩
+    | err => simp [resOut] at h2
+  · rintro ⟨h1, v, h2⟩
+    rw [h3] at h2; cases h2
+    exact ⟨by omega, by simp [resOut]⟩
+
+/-- the leaders of the offers made for key `k` are the started callers of key `k` whose function succeeded -/
+theorem setLeader_mem_iff {ids : List Nat} (st : Settled cfg c0 now0 s g h ids) (k x : Nat) :
+    x ∈ (h.sets.filter (fun p => cfg.key p.1 == k)).map (·.1) ↔
+      (x ∈ h.order ∧ cfg.key x = k ∧ ∃ v, s.execRes x = some (.ok v)) := by
+  have A := st.all
+  simp only [List.mem_map, List.mem_filter, beq_iff_eq]
+  constructor
+  · rintro ⟨p, ⟨hp, hk⟩, rfl⟩
+    obtain ⟨f1, _, _, _, f5⟩ := A.sets.fact p hp
+    refine ⟨?_, hk, p.2.1, f1⟩
+    have h2 := A.sinv.loc p.1
+    rcases f5 with ⟨v, hpc⟩ | ⟨v, hpc, hsrc⟩
+    · simp only [SLocal, hpc] at h2
+      obtain ⟨⟨i, a, b, _, m2, _⟩, _⟩ := h2
+      exact (A.ord.mem _).2 ⟨a, m2⟩
+    · simp only [SLocal, hpc, hsrc] at h2
+      rcases h2 with ⟨_, i, a, b, t, _, m2, _⟩ | ⟨hne, _⟩
+      · exact (A.ord.mem _).2 ⟨a, m2⟩
+      · exact absurd rfl hne
+  · rintro ⟨hx, hk, v, hv⟩
+    obtain ⟨r, b, h1, h2, h3, _⟩ := settled_leader_done st x hx
+    rw [hv] at h3; cases h3
+    obtain ⟨p, hp, hpx⟩ := A.sets.compl x (Or.inr ⟨v, h1, h2⟩)
+    exact ⟨p, ⟨hp, by rw [hpx]; exact hk⟩, hpx⟩
+
+
+theorem mem_of_filter {α : Type} {p : α → Bool} {x : α} {L : List α} (h : x ∈ L.filter p) : x ∈ L :=
+  (List.mem_filter.1 h).1
+
+theorem startsBefore_asym {ids : List Nat} (st : Settled cfg c0 now0 s g h ids) (a b : Nat) (ha : a ∈ h.order)
+    (hb : b ∈ h.order) (h1 : startsBefore g a b) (h2 : startsBefore g b a) : False := by
+  obtain ⟨x, hx⟩ := (st.all.ord.mem a).1 ha
+  obtain ⟨y, hy⟩ := (st.all.ord.mem b).1 hb
+  have := h1 x y hx hy
+  have := h2 y x hy hx
+  omega
+
+theorem setLeaders_sorted {ids : List Nat} (st : Settled cfg c0 now0 s g h ids) (k : Nat) :
+    ((h.sets.filter (fun p => cfg.key p.1 == k)).map (·.1)).Pairwise (startsBefore g) := by
+  rw [List.pairwise_map]
+  have := st.all.sets.sorted.sublist (List.filter_sublist (p := fun p => cfg.key p.1 == k))
+  refine List.Pairwise.imp_of_mem ?_ this
+  intro p q hp hq hpq
+  simp only [List.mem_filter, beq_iff_eq] at hp hq
+  exact hpq (by rw [hp.2, hq.2])
+
+/-- in a settled state, the successful executions of key `k` in start order are exactly the leaders of
+the offers made for `k`, in the order the offers were made -/
+theorem leaders_eq {ids : List Nat} (st : Settled cfg c0 now0 s g h ids) (k : Nat) :
+    h.order.filter (fun l => Pk (k : Int) (execD cfg s g l)) =
+      (h.sets.filter (fun p => cfg.key p.1 == k)).map (·.1) := by
+  have A := st.all
+  apply pairwise_ext (startsBefore g)
+  · exact A.ord.sorted.sublist List.filter_sublist
+  · exact setLeaders_sorted st k
+  · intro a ha b hb
+    exact startsBefore_asym st a b (mem_of_filter ha) (mem_of_filter hb)
+  · intro a ha hr
+    exact startsBefore_asym st a a (mem_of_filter ha) (mem_of_filter ha) hr hr
+  · intro x
+    rw [setLeader_mem_iff st k x, List.mem_filter]
+    constructor
+    · rintro ⟨h1, h2⟩; exact ⟨h1, (pk_execD_iff st k x h1).1 h2⟩
+    · rintro ⟨h1, h2⟩; exact ⟨h1, (pk_execD_iff st k x h1).2 h2⟩
+
+/-- how an offer is rendered -/
+theorem set_render {ids : List Nat} (st : Settled cfg c0 now0 s g h ids) (p : Nat × Int × Int) (hp : p ∈ h.sets) :
+    p.1 ∈ h.order ∧ (execD cfg s g p.1).val = p.2.1 ∧ (execD cfg s g p.1).endT = p.2.2 ∧ 0 ≤ p.2.2 ∧
+      Pk (cfg.key p.1 : Int) (execD cfg s g p.1) = true := by
+  have A := st.all
+  obtain ⟨f1, f2, f3, _, _⟩ := A.sets.fact p hp
+  have hmem : p.1 ∈ h.order := by
+    have := (setLeader_mem_iff st (cfg.key p.1) p.1).1
+      (List.mem_map.2 ⟨p, List.mem_filter.2 ⟨hp, by simp⟩, rfl⟩)
+    exact this.1
+  obtain ⟨a, b, r, _, _, h3, _, _, _, _, _, k6, _, k8⟩ := specExec_some (order_rendered st p.1 hmem)
+  rw [f1] at h3; cases h3
+  refine ⟨hmem, by rw [k6]; rfl, Option.some.inj (k8.symm.trans f2), f3, ?_⟩
+  exact (pk_execD_iff st (cfg.key p.1) p.1 hmem).2 ⟨rfl, p.2.1, f1⟩
+
+theorem foldSets_abs (E : Int) (d : Nat → Spec.C17.Exec) : ∀ (T : List (Nat × Int × Int)) (cell : Cell),
+    (∀ p ∈ T, (d p.1).val = p.2.1 ∧ (d p.1).endT = p.2.2 ∧ 0 ≤ p.2.2) →
+    absCell (foldSets E cell T) = ((T.map (·.1)).map d).foldl (stepE E) (absCell cell)
+  | [], cell, _ => rfl
+  | p :: T, cell, hT => by
+    obtain ⟨h1, h2, h3⟩ := hT p List.mem_cons_self
+    simp only [foldSets, List.foldl_cons, List.map_cons]
+    have ih := foldSets_abs E d T (cellSet E p.2.2 cell p.2.1) (fun q hq => hT q (List.mem_cons_of_mem _ hq))
+    simp only [foldSets] at ih
+    rw [ih, stepE, h1, h2, offer_abs _ _ _ _ h3]
+
+/-- the prefix correspondence: the offers for key `k` up to and including `p` are the successful
+executions of `k` in start order up to and including `p`'s leader -/
+theorem prefix_leaders_eq {ids : List Nat} (st : Settled cfg c0 now0 s g h ids) (k : Nat)
+    (U W : List (Nat × Int × Int)) (p : Nat × Int × Int) (A B : List Nat)
+    (hT : h.sets.filter (fun p => cfg.key p.1 == k) = U ++ p :: W) (hO : h.order = A ++ p.1 :: B) :
+    (U ++ [p]).map (·.1) = (A ++ [p.1]).filter (fun l => Pk (k : Int) (execD cfg s g l)) := by
+  have hG := leaders_eq st k
+  have hS := setLeaders_sorted st k
+  rw [hT] at hG hS
+  simp only [List.map_append, List.map_cons] at hG hS
+  have hmemS : ∀ x, x ∈ U.map (·.1) ++ p.1 :: W.map (·.1) → x ∈ h.order := by
+    intro x hx
+    rw [← hG] at hx
+    exact mem_of_filter hx
+  apply pairwise_ext (startsBefore g)
+  · simp only [List.map_append, List.map_cons, List.map_nil]
+    refine hS.sublist ?_
+    exact List.Sublist.append_left (List.cons_sublist_cons.2 (List.nil_sublist _)) _
+  · refine (st.all.ord.sorted.sublist ?_).sublist List.filter_sublist
+    rw [hO]
+    exact List.Sublist.append_left (List.cons_sublist_cons.2 (List.nil_sublist _)) _
+  · intro a ha b hb
+    simp only [List.map_append, List.map_cons, List.map_nil] at ha hb
+    refine startsBefore_asym st a b (hmemS a ?_) (hmemS b ?_)
+    · rcases List.mem_append.1 ha with h1 | h1
+      · exact List.mem_append_left _ h1
+      · simp only [List.mem_singleton] at h1; subst h1; simp
+    · rcases List.mem_append.1 hb with h1 | h1
+      · exact List.mem_append_left _ h1
+      · simp only [List.mem_singleton] at h1; subst h1; simp
+  · intro a ha hr
+    simp only [List.map_append, List.map_cons, List.map_nil] at ha
+    have : a ∈ h.order := hmemS a (by
+      rcases List.mem_append.1 ha with h1 | h1
+      · exact List.mem_append_left _ h1
+      · simp only [List.mem_singleton] at h1; subst h1; simp)
+    exact startsBefore_asym st a a this this hr hr
+  · intro x
+    simp only [List.map_append, List.map_cons, List.map_nil]
+    rw [mem_upto_iff (startsBefore g) (U.map (·.1)) (W.map (·.1)) p.1 hS
+      (fun a ha b hb => startsBefore_asym st a b (hmemS a ha) (hmemS b hb))
+      (fun a ha hr => startsBefore_asym st a a (hmemS a ha) (hmemS a ha) hr hr) x]
+    rw [List.mem_filter]
+    have hOs := st.all.ord.sorted
+    rw [hO] at hOs
+    have hmemO : ∀ y, y ∈ A ++ p.1 :: B → y ∈ h.order := by intro y hy; rw [hO]; exact hy
+    rw [mem_upto_iff (startsBefore g) A B p.1 hOs
+      (fun a ha b hb => startsBefore_asym st a b (hmemO a ha) (hmemO b hb))
+      (fun a ha hr => startsBefore_asym st a a (hmemO a ha) (hmemO a ha) hr hr) x]
+    rw [← hG, List.mem_filter, hO]
+    constructor
+    · rintro ⟨⟨h1, h2⟩, h3⟩; exact ⟨⟨h1, h3⟩, h2⟩
+    · rintro ⟨⟨h1, h3⟩, h2⟩; exact ⟨⟨h1, h2⟩, h3⟩
+
+/-- the entry `Spec.C17.history` computes after the execution led by `p.1` is the (abstracted) cache cell
+after the offers for the key up to and including `p` -/
+theorem prefix_entry_eq {ids : List Nat} (st : Settled cfg c0 now0 s g h ids) (k : Nat)
+    (U W : List (Nat × Int × Int)) (p : Nat × Int × Int) (A B : List Nat)
+    (hT : h.sets.filter (fun p => cfg.key p.1 == k) = U ++ p :: W) (hO : h.order = A ++ p.1 :: B) :
+    stepE cfg.expTime (((A.map (execD cfg s g)).filter (Pk (k : Int))).foldl (stepE cfg.expTime) (absCell (c0 k)))
+        (execD cfg s g p.1) =
+      absCell (foldSets cfg.expTime (c0 k) (U ++ [p])) := by
+  have hpmem : p ∈ h.sets := by
+    have : p ∈ h.sets.filter (fun p => cfg.key p.1 == k) := by rw [hT]; simp
+    exact mem_of_filter this
+  have hpk : cfg.key p.1 = k := by
+    have : p ∈ h.sets.filter (fun p => cfg.key p.1 == k) := by rw [hT]; simp
+    simpa using (List.mem_filter.1 this).2
+  have hPk : Pk (k : Int) (execD cfg s g p.1) = true := by
+    have := (set_render st p hpmem).2.2.2.2
+    rw [hpk] at this; exact this
+  have hfold : ∀ q ∈ U ++ [p], (execD cfg s g q.1).val = q.2.1 ∧ (execD cfg s g q.1).endT = q.2.2 ∧ 0 ≤ q.2.2 := by
+    intro q hq
+    have hq' : q ∈ h.sets := by
+      have : q ∈ h.sets.filter (fun p => cfg.key p.1 == k) := by
+        rw [hT]
+        rcases List.mem_append.1 hq with h1 | h1
+        · exact List.mem_append_left _ h1
+        · simp only [List.mem_singleton] at h1; subst h1; simp
+      exact mem_of_filter this
+    obtain ⟨_, r1, r2, r3, _⟩ := set_render st q hq'
+    exact ⟨r1, r2, r3⟩
+  rw [foldSets_abs cfg.expTime (execD cfg s g) (U ++ [p]) (c0 k) hfold, prefix_leaders_eq st k U W p A B hT hO]
+  rw [show (fun l => Pk (k : Int) (execD cfg s g l)) = (Pk (k : Int) ∘ execD cfg s g) from rfl,
+    ← List.filter_map, List.map_append, List.filter_append, List.foldl_append]
+  simp [hPk]
+
+
+/-- the cache before the run, as the monitor's initial entries -/
+def e0Of (c0 : Nat → Cell) : Int → Spec.C17.Entry := fun k => absCell (c0 k.toNat)
+
+/-- the executions in start order, as the harness prints them -/
+def execsH (cfg : Cfg) (s : State) (g : EvLog) (h : HLog) : List Spec.C17.Exec := specExecs cfg s g h.order
+
+/-- the callers `ids`, with source indices into `execsH` -/
+def callsH (cfg : Cfg) (s : State) (g : EvLog) (h : HLog) (ids : List Nat) : List Spec.C17.Call :=
+  specCallsOn cfg s g h.order ids
+
+/-- in a settled state the entry `Spec.C17.finalEntry` computes for key `k` is the (abstracted) cache cell -/
+theorem finalEntry_is_cache {ids : List Nat} (st : Settled cfg c0 now0 s g h ids) (k : Nat) :
+    Spec.C17.finalEntry cfg.expTime (k : Int) (e0Of c0 (k : Int)) (execsH cfg s g h) = absCell (s.cache k) := by
+  have hfold : ∀ q ∈ h.sets.filter (fun p => cfg.key p.1 == k),
+      (execD cfg s g q.1).val = q.2.1 ∧ (execD cfg s g q.1).endT = q.2.2 ∧ 0 ≤ q.2.2 := by
+    intro q hq
+    obtain ⟨_, r1, r2, r3, _⟩ := set_render st q (mem_of_filter hq)
+    exact ⟨r1, r2, r3⟩
+  rw [finalEntry_eq, execsH, execs_eq_map st, List.filter_map,
+    show (Pk (k : Int) ∘ execD cfg s g) = (fun l => Pk (k : Int) (execD cfg s g l)) from rfl, leaders_eq st k,
+    st.all.sets.cacheA k, foldSets_abs cfg.expTime (execD cfg s g) _ (c0 k) hfold]
+  simp [e0Of]
+
+/-- **monitor clause on the cache after the scenario (`getOk`)**: in a settled state `Cache.Get k` — the
+model's `cellGet now (cache k)` — is exactly the live value the executions imply -/
+theorem monitor_getOk {ids : List Nat} (st : Settled cfg c0 now0 s g h ids) (k : Nat) :
+    Spec.C17.getOk cfg.expTime s.now (e0Of c0) (execsH cfg s g h) (k : Int) (cellGet s.now (s.cache k)) = true := by
+  unfold Spec.C17.getOk
+  rw [finalEntry_is_cache st k, live_abs]
+  simp
+
+
+/-- every rendered execution is led by a caller whose function started -/
+theorem execsH_leader {e : Spec.C17.Exec} (he : e ∈ execsH cfg s g h) :
+    ∃ l, l ∈ h.order ∧ specExec cfg s g l = some e ∧ e.leader = (l : Int) := by
+  simp only [execsH, specExecs, List.mem_filterMap] at he
+  obtain ⟨l, hl, hle⟩ := he
+  obtain ⟨_, _, _, _, _, _, _, _, _, k4, _⟩ := specExec_some hle
+  exact ⟨l, hl, hle, k4⟩
+
+/-- a caller that hit the cache leads no rendered execution -/
+theorem hit_not_leads {ids : List Nat} (st : Settled cfg c0 now0 s g h ids) (c : Nat) (v : Int)
+    (hs : s.src c = some (.hit v)) (x : Spec.C17.Call) (hid : x.id = (c : Int)) :
+    Spec.C17.leads x (execsH cfg s g h) = false := by
+  cases hl : Spec.C17.leads x (execsH cfg s g h) with
+  | false => rfl
+  | true =>
+    simp only [Spec.C17.leads, List.any_eq_true, beq_iff_eq] at hl
+    obtain ⟨e, he, hel⟩ := hl
+    obtain ⟨l, hlo, _, k4⟩ := execsH_leader he
+    have : l = c := by rw [k4, hid] at hel; omega
+    subst this
+    obtain ⟨a, ha⟩ := (st.all.ord.mem l).1 hlo
+    have := (log_hit_causes_no_start st.log l v hs).2.1
+    rw [this] at ha; cases ha
+
+/-- **`fromCache`**: in a settled state, a caller that hit the cache passes the monitor's cache-source
+test: value, no source index, returned at its invocation instant, led no execution, and the value is
+live at its invocation instant in the entry before the run or in the `history` entry after an
+execution that had ended before the caller returned -/
+theorem monitor_fromCache {ids : List Nat} (st : Settled cfg c0 now0 s g h ids) (c : Nat) (v : Int)
+    (hs : s.src c = some (.hit v)) (x : Spec.C17.Call)
+    (hx : specCall cfg s g (execsH cfg s g h) c = some x) :
+    Spec.C17.fromCache x (e0Of c0 x.key)
+      (Spec.C17.history cfg.expTime x.key (e0Of c0 x.key) (execsH cfg s g h)) (execsH cfg s g h) = true := by
+  have A := st.all
+  obtain ⟨r, i, t, hd, j1, j2, jid, jkey, _, jret, jout, jval, jsrc, jti, jtt⟩ := specCall_some hx
+  have hpc := (hit_local (A.inv.loc c) hs).1
+  rw [hd] at hpc; cases hpc
+  -- the shape conjuncts
+  have c1 : x.out = 0 := by rw [jout]; rfl
+  have c2 : x.src = -1 := by rw [jsrc, hs]; rfl
+  have c3 : x.retT = x.invT := by
+    have tl := A.tinv.loc c
+    simp only [TLocal, hd, hs] at tl
+    obtain ⟨ti, n1, n2⟩ := tl
+    rw [Option.some.inj (jti.symm.trans n1), Option.some.inj (jtt.symm.trans n2)]
+  have c4 := hit_not_leads st c v hs x jid
+  -- what the cacheCheck read
+  obtain ⟨m, hm⟩ := A.read.has c (by rw [hd]; simp) (by rw [hd]; simp)
+  obtain ⟨hmlen, ti, hti, hread⟩ := A.read.fact c m hm
+  have eti : x.invT = ti := Option.some.inj (jti.symm.trans hti)
+  simp only [hs, hitVal] at hread
+  have hkey : x.key.toNat = cfg.key c := by rw [jkey]; simp
+  have he0 : e0Of c0 x.key = absCell (c0 (cfg.key c)) := by simp [e0Of, hkey]
+  unfold Spec.C17.fromCache
+  simp only [c1, c2, c3, c4, beq_self_eq_true, Bool.not_false, Bool.true_and, Bool.or_eq_true, beq_iff_eq,
+    List.any_eq_true]
+  rcases List.eq_nil_or_concat (offersSeen cfg h c m) with hnil | ⟨U, p, hcat⟩
+  · left
+    rw [hnil] at hread
+    rw [he0, live_abs, eti, jval]
+    exact hread
+  · right
+    rw [List.concat_eq_append] at hcat
+    -- split the offers and the start order at `p`
+    have hpT : p ∈ offersSeen cfg h c m := by rw [hcat]; simp
+    have hptake : p ∈ h.sets.take m := mem_of_filter hpT
+    have hpsets : p ∈ h.sets := List.mem_of_mem_take hptake
+    have hT : h.sets.filter (fun q => cfg.key q.1 == cfg.key c) =
+        U ++ p :: (h.sets.drop m).filter (fun q => cfg.key q.1 == cfg.key c) := by
+      conv => lhs; rw [← List.take_append_drop m h.sets]
+      rw [List.filter_append]
+      have : (h.sets.take m).filter (fun q => cfg.key q.1 == cfg.key c) = U ++ [p] := hcat
+      rw [this]; simp
+    obtain ⟨pO, _, _, _, _⟩ := set_render st p hpsets
+    obtain ⟨Ao, Bo, hO⟩ := List.append_of_mem pO
+    have hen := prefix_entry_eq st (cfg.key c) U _ p Ao Bo hT hO
+    rw [hcat] at hread
+    -- the history member
+    have hexecs : execsH cfg s g h = Ao.map (execD cfg s g) ++ execD cfg s g p.1 :: Bo.map (execD cfg s g) := by
+      rw [execsH, execs_eq_map st, hO]; simp
+    have hPk : Pk x.key (execD cfg s g p.1) = true := by
+      have hk : cfg.key p.1 = cfg.key c := by simpa using (List.mem_filter.1 hpT).2
+      have := (set_render st p hpsets).2.2.2.2
+      rw [hk] at this; rw [jkey]; exact this
+    have hmem : ((Ao.length : Int), absCell (foldSets cfg.expTime (c0 (cfg.key c)) (U ++ [p]))) ∈
+        Spec.C17.history cfg.expTime x.key (e0Of c0 x.key) (execsH cfg s g h) := by
+      unfold Spec.C17.history
+      rw [history_go_mem_iff]
+      refine ⟨Ao.map (execD cfg s g), execD cfg s g p.1, Bo.map (execD cfg s g), hexecs, by simp, hPk, ?_⟩
+      rw [he0, ← hen, jkey]
+    refine ⟨_, hmem, ?_⟩
+    simp only [Bool.and_eq_true, beq_iff_eq]
+    refine ⟨by rw [live_abs, eti, jval]; exact hread, ?_⟩
+    have hget : (execsH cfg s g h)[(Ao.length : Int).toNat]? = some (execD cfg s g p.1) := by
+      rw [hexecs]; simp
+    rw [hget]
+    obtain ⟨b, hb, hbt⟩ := A.read.hitEnd c m t v hm hs j2 p hptake
+    obtain ⟨_, b', _, _, q2, _, _, _, k3, _⟩ := specExec_some (order_rendered st p.1 pO)
+    rw [hb] at q2; cases q2
+    simp only [decide_eq_true_eq, k3, jret]
+    omega
+
+
+/-- a returned caller served by an execution gets a source index: that execution is rendered -/
+theorem srcIndex_nonneg {ids : List Nat} (st : Settled cfg c0 now0 s g h ids) (c l : Nat) (r : Res)
+    (hd : s.pc c = .done r) (hs : s.src c = some (.exec l)) :
+    0 ≤ srcIndex (execsH cfg s g h) (some (.exec l)) := by
+  simp only [srcIndex]
+  split
+  · omega
+  · rename_i hf
+    exfalso
+    rw [List.findIdx?_eq_none_iff] at hf
+    obtain ⟨_, _, _, _, _, m4⟩ := log_result_has_source st.log c r hd
+    rcases m4 with ⟨v, _, m5, _⟩ | ⟨l2, a, b, tl, m5, _, _, m7, _⟩
+    · rw [hs] at m5; cases m5
+    · rw [hs] at m5; cases m5
+      have hlo : l ∈ h.order := (st.all.ord.mem l).2 ⟨a, m7⟩
+      have hmem : execD cfg s g l ∈ execsH cfg s g h := by
+        rw [execsH, execs_eq_map st]; exact List.mem_map.2 ⟨l, hlo, rfl⟩
+      obtain ⟨_, _, _, _, _, _, _, _, _, k4, _⟩ := specExec_some (order_rendered st l hlo)
+      have := hf _ hmem
+      simp [k4] at this
+
+/-- **monitor clause `value/error has a source`, complete**: in a settled state every rendered caller
+passes `Spec.C17.hasSource` — through the execution that served it, or through the cache -/
+theorem monitor_hasSource {ids : List Nat} (st : Settled cfg c0 now0 s g h ids) :
+    (callsH cfg s g h ids).all
+      (Spec.C17.hasSource cfg.expTime (e0Of c0) (callsH cfg s g h ids) (execsH cfg s g h)) = true := by
+  simp only [List.all_eq_true]
+  intro x hx
+  have hx' := hx
+  simp only [callsH, specCallsOn, List.mem_filterMap] at hx'
+  obtain ⟨c, _, hc⟩ := hx'
+  obtain ⟨r, i, t, hd, _, _, _, _, _, _, _, _, jsrc, _⟩ := specCall_some hc
+  cases hs : s.src c with
+  | none =>
+    rcases result_has_source (reachableLog_reachable st.log) c r hd with ⟨v, _, h2⟩ | ⟨l, h1, _⟩
+    · rw [hs] at h2; cases h2
+    · rw [hs] at h1; cases h1
+  | some y =>
+    cases y with
+    | hit v =>
+      unfold Spec.C17.hasSource
+      rw [Bool.or_eq_true]
+      right
+      exact monitor_fromCache st c v hs x hc
+    | exec l =>
+      refine monitor_hasSource_exec st.logP h.order ids st.sub cfg.expTime (e0Of c0) x hx ?_
+      rw [jsrc, hs]
+      exact srcIndex_nonneg st c l r hd hs
+
+
+/-- the entry the monitor holds certain at `c`'s invocation, if live then, is what `c`'s `cacheCheck`
+read: the offers made in between were refused -/
+theorem certain_is_read {ids : List Nat} (st : Settled cfg c0 now0 s g h ids) (c : Nat) (x : Spec.C17.Call)
+    (hx : specCall cfg s g (execsH cfg s g h) c = some x) (m : Nat) (hm : h.readLen c = some m) (ti v : Int)
+    (hti : g.invT c = some ti)
+    (hlive : Spec.C17.live ti (Spec.C17.certainEntry cfg.expTime (e0Of c0 x.key) (callsH cfg s g h ids)
+      (execsH cfg s g h) x) = some v) :
+    cellGet ti (foldSets cfg.expTime (c0 (cfg.key c)) (offersSeen cfg h c m)) = some v := by
+  have A := st.all
+  obtain ⟨r, ic, t, hd, j1, j2, jid, jkey, jinv, jret, jout, jval, jsrc, jti, jtt⟩ := specCall_some hx
+  have hkey : x.key.toNat = cfg.key c := by rw [jkey]; simp
+  have he0 : e0Of c0 x.key = absCell (c0 (cfg.key c)) := by simp [e0Of, hkey]
+  have hseen : ∀ p ∈ offersSeen cfg h c m, p.2.2 ≤ ti := fun p hp =>
+    A.read.seenTime c m ti hm hti p (mem_of_filter hp)
+  unfold Spec.C17.certainEntry at hlive
+  simp only at hlive
+  split at hlive
+  · -- some execution is known to have been served before `c` was invoked
+    rename_i i en hlast
+    have hmemk := List.mem_of_getLast? hlast
+    rw [List.mem_filter] at hmemk
+    obtain ⟨hhist, hany⟩ := hmemk
+    simp only [List.any_eq_true, Bool.and_eq_true, beq_iff_eq, decide_eq_true_eq] at hany
+    obtain ⟨rc, hrc, hrsrc, hrret⟩ := hany
+    simp only [callsH, specCallsOn, List.mem_filterMap] at hrc
+    obtain ⟨cr, _, hcr⟩ := hrc
+    obtain ⟨rr, _, tr, hdr, _, k2, _, _, _, kret, _, _, ksrc, _⟩ := specCall_some hcr
+    -- the history member
+    unfold Spec.C17.history at hhist
+    rw [history_go_mem_iff] at hhist
+    obtain ⟨A', e, B', hex, hi, hPk, hen⟩ := hhist
+    simp only [Int.zero_add] at hi
+    -- the served caller's source is the execution at that index
+    have hsrcr : ∃ l, s.src cr = some (.exec l) ∧ e.leader = (l : Int) := by
+      cases hsr : s.src cr with
+      | none => rw [ksrc, hsr] at hrsrc; simp [srcIndex] at hrsrc; omega
+      | some y =>
+        cases y with
+        | hit w => rw [ksrc, hsr] at hrsrc; simp [srcIndex] at hrsrc; omega
+        | exec l =>
+          refine ⟨l, rfl, ?_⟩
+          rcases srcIndex_exec (specExecs cfg s g h.order) l with h1 | ⟨j, e', h1, he', hj⟩
+          · rw [ksrc, hsr, h1] at hrsrc; omega
+          · rw [ksrc, hsr, h1, hi] at hrsrc
+            replace he' : (execsH cfg s g h)[j]? = some e' := he'
+            have hjA : j = A'.length := by omega
+            rw [hjA, hex] at he'
+            simp at he'
+            rw [he']; exact hj
+    obtain ⟨l, hsl, hel⟩ := hsrcr
+    -- split the start order at `l`
+    have hmap := hex
+    rw [execsH, execs_eq_map st, List.map_eq_append_iff] at hmap
+    obtain ⟨Ao, rest, hO, hAo, hrest⟩ := hmap
+    rw [List.map_eq_cons_iff] at hrest
+    obtain ⟨l0, Bo, hrest', hl0, hBo⟩ := hrest
+    rw [hrest'] at hO
+    have hl0o : l0 ∈ h.order := by rw [hO]; simp
+    have hll : l0 = l := by
+      obtain ⟨_, _, _, _, _, _, _, _, _, k4, _⟩ := specExec_some (order_rendered st l0 hl0o)
+      rw [hl0, hel] at k4; omega
+    subst hll
+    have hPk' : Pk (cfg.key c : Int) (execD cfg s g l0) = true := by rw [hl0, ← jkey]; exact hPk
+    obtain ⟨hkl, w, hw⟩ := (pk_execD_iff st (cfg.key c) l0 hl0o).1 hPk'
+    -- its offer was among those `c` saw
+    have htrlt : tr < ic := by rw [kret, jinv] at hrret; omega
+    obtain ⟨p, hptake, hpl⟩ := A.read.known c m cr l0 tr ic w hm k2 j1 htrlt hsl hw
+    have hpT : p ∈ offersSeen cfg h c m := by
+      simp only [offersSeen, List.mem_filter, beq_iff_eq]
+      exact ⟨hptake, by rw [hpl]; exact hkl⟩
+    obtain ⟨T1, T2, hsplit⟩ := List.append_of_mem hpT
+    have hT : h.sets.filter (fun q => cfg.key q.1 == cfg.key c) =
+        T1 ++ p :: (T2 ++ (h.sets.drop m).filter (fun q => cfg.key q.1 == cfg.key c)) := by
+      conv => lhs; rw [← List.take_append_drop m h.sets]
+      rw [List.filter_append]
+      have : (h.sets.take m).filter (fun q => cfg.key q.1 == cfg.key c) = T1 ++ p :: T2 := hsplit
+      rw [this]; simp
+    have hO' : h.order = Ao ++ p.1 :: Bo := by rw [hpl]; exact hO
+    have hpre := prefix_entry_eq st (cfg.key c) T1 _ p Ao Bo hT hO'
+    have hen' : en = absCell (foldSets cfg.expTime (c0 (cfg.key c)) (T1 ++ [p])) := by
+      rw [hen, ← hpre, ← hAo, ← hl0, hpl, he0, jkey]
+    rw [hen', live_abs] at hlive
+    -- the later offers were refused
+    have hfold : foldSets cfg.expTime (c0 (cfg.key c)) (offersSeen cfg h c m) =
+        foldSets cfg.expTime (foldSets cfg.expTime (c0 (cfg.key c)) (T1 ++ [p])) T2 := by
+      rw [hsplit]
+      have : T1 ++ p :: T2 = (T1 ++ [p]) ++ T2 := by simp
+      rw [this]
+      simp only [foldSets, List.foldl_append]
+    rw [hfold, foldSets_of_live T2 _ hlive (fun q hq => hseen q (by rw [hsplit]; simp [hq]))]
+    exact hlive
+  · -- nothing is known: the entry from before the run
+    rw [he0, live_abs] at hlive
+    rw [foldSets_of_live _ _ hlive hseen]
+    exact hlive
+
+/-- **monitor clause `cached-value-served-without-invoking` (`servedIfCached`)**: in a settled state, for
+every rendered caller: if the entry certainly in the cache when it was invoked was live at that instant,
+the caller returned that value, at once, and led no execution -/
+theorem monitor_servedIfCached {ids : List Nat} (st : Settled cfg c0 now0 s g h ids) :
+    (callsH cfg s g h ids).all
+      (Spec.C17.servedIfCached cfg.expTime (e0Of c0) (callsH cfg s g h ids) (execsH cfg s g h)) = true := by
+  have A := st.all
+  simp only [List.all_eq_true]
+  intro x hx
+  simp only [callsH, specCallsOn, List.mem_filterMap] at hx
+  obtain ⟨c, _, hc⟩ := hx
+  obtain ⟨r, ic, t, hd, j1, j2, jid, jkey, jinv, jret, jout, jval, jsrc, jti, jtt⟩ := specCall_some hc
+  obtain ⟨m, hm⟩ := A.read.has c (by rw [hd]; simp) (by rw [hd]; simp)
+  obtain ⟨_, ti, hti, hread⟩ := A.read.fact c m hm
+  have eti : x.invT = ti := Option.some.inj (jti.symm.trans hti)
+  unfold Spec.C17.servedIfCached
+  split
+  · rename_i v hlive
+    rw [eti] at hlive
+    have hcell := certain_is_read st c x hc m hm ti v hti hlive
+    rw [hcell] at hread
+    -- so `c` hit the cache with value `v`
+    have hs : s.src c = some (.hit v) := by
+      cases hsc : s.src c with
+      | none => rw [hsc] at hread; simp [hitVal] at hread
+      | some y =>
+        cases y with
+        | hit w => rw [hsc] at hread; simp only [hitVal, Option.some.injEq] at hread; rw [hread]
+        | exec l => rw [hsc] at hread; simp [hitVal] at hread
+    have hpc := (hit_local (A.inv.loc c) hs).1
+    rw [hd] at hpc; cases hpc
+    have c3 : x.retT = x.invT := by
+      have tl := A.tinv.loc c
+      simp only [TLocal, hd, hs] at tl
+      obtain ⟨ti', n1, n2⟩ := tl
+      rw [Option.some.inj (jti.symm.trans n1), Option.some.inj (jtt.symm.trans n2)]
+    have c4 := hit_not_leads st c v hs x jid
+    simp only [Bool.and_eq_true, beq_iff_eq, Bool.not_eq_true']
+    exact ⟨⟨⟨by rw [jout]; rfl, by rw [jval]; rfl⟩, c3⟩, c4⟩
+  · rfl
+
+
+/-- the rendered log of a run: callers `ids`, executions in start order, the in-flight maxima and the
+final `Cache.Get` of the keys `0 … nkeys-1` -/
+def specLog (cfg : Cfg) (s : State) (g : EvLog) (h : HLog) (ids : List Nat) (nkeys : Nat) : Spec.C17.Log :=
+  { callers := callsH cfg s g h ids
+    execs := execsH cfg s g h
+    maxIn := (List.range nkeys).map (fun k => (h.maxIn k : Int))
+    gets := (List.range nkeys).map (fun k => cellGet s.now (s.cache k))
+    endT := s.now }
+
+theorem order_nodup {ids : List Nat} (st : Settled cfg c0 now0 s g h ids) : h.order.Nodup := by
+  refine List.Pairwise.imp_of_mem ?_ st.all.ord.sorted
+  intro a b ha _ hab heq
+  subst heq
+  exact startsBefore_asym st a a ha ha hab hab
+
+/-- **the monitor accepts the log of every run**: for every run of the protocol LTS under the virtual
+clock (any number of callers and keys, any interleaving, any results, any cache before the run, starting
+at an instant `≥ 0`), once the callers `ids` — which include every caller whose function ran — have
+returned, `Spec.C17.check` finds no violated clause in the rendered log -/
+theorem monitor_accepts {ids : List Nat} (st : Settled cfg c0 now0 s g h ids) (nkeys : Nat) :
+    Spec.C17.check cfg.expTime (e0Of c0) (specLog cfg s g h ids nkeys) = none := by
+  have hn := order_nodup st
+  have c1 : ((List.range nkeys).map (fun k => (h.maxIn k : Int))).all (· ≤ 1) = true := by
+    simp only [List.all_eq_true, List.mem_map, decide_eq_true_eq]
+    rintro y ⟨k, _, rfl⟩
+    have := st.all.ord.maxIn k
+    omega
+  have c2 := monitor_exclusive st.log h.order hn
+  have c3 := monitor_resultShape (cfg := cfg) (s := s) (g := g) h.order ids
+  have c4 := monitor_srcConsistent st.log h.order ids
+  have c5 := monitor_execOwned st.logP h.order ids st.sub st.quiet
+  have c5' := monitor_leadsAtMostOnce (cfg := cfg) (s := s) (g := g) h.order hn
+  have c6 := monitor_hasSource st
+  have c7 := monitor_servedIfCached st
+  have c8 : (List.range ((List.range nkeys).map (fun k => cellGet s.now (s.cache k))).length).find?
+      (fun (k : Nat) => !(Spec.C17.getOk cfg.expTime s.now (e0Of c0) (execsH cfg s g h) (k : Int)
+        ((((List.range nkeys).map (fun k => cellGet s.now (s.cache k)))[k]?).getD none))) = none := by
+    rw [List.find?_eq_none]
+    intro k hk
+    simp only [List.length_map, List.length_range, List.mem_range] at hk
+    have : ((List.range nkeys).map (fun k => cellGet s.now (s.cache k)))[k]? = some (cellGet s.now (s.cache k)) := by
+      simp [hk]
+    rw [this]
+    simp [monitor_getOk st k]
+  unfold Spec.C17.check
+  simp only [specLog]
+  simp only [callsH, execsH] at c2 c3 c4 c5 c5' c6 c7 c8 ⊢
+  simp only [c1, c2, c3, c4, c5, c5', c6, c7, c8, Bool.not_true, Bool.or_self, Bool.false_eq_true, if_false]
+
+
+/-! ### non-vacuity: a settled run exists, and the monitor accepts its log -/
+
+/-- run a script keeping both logs -/
+def runH (cfg : Cfg) (s : State) (g : EvLog) (h : HLog) : List Label → Option (State × EvLog × HLog)
+  | [] => some (s, g, h)
+  | l :: ls => match step cfg s l with
+    | some s' => runH cfg s' (logStep cfg s g l) (histStep cfg s h l) ls
+    | none => none
+
+theorem runH_reachable (s0 : State) : ∀ (ls : List Label) (s1 : State) (g1 : EvLog) (h1 : HLog)
+    (s2 : State) (g2 : EvLog) (h2 : HLog), (∀ l ∈ ls, ∀ d, l ≠ .tick d) →
+    ReachableH cfg s0 s1 g1 h1 → runH cfg s1 g1 h1 ls = some (s2, g2, h2) → ReachableH cfg s0 s2 g2 h2
+  | [], s1, g1, h1, s2, g2, h2, _, hr, hrun => by
+    simp only [runH, Option.some.injEq, Prod.mk.injEq] at hrun
+    obtain ⟨e1, e2, e3⟩ := hrun
+    rw [← e1, ← e2, ← e3]; exact hr
+  | l :: ls, s1, g1, h1, s2, g2, h2, hno, hr, hrun => by
+    simp only [runH] at hrun
+    split at hrun
+    · rename_i s' hs'
+      exact runH_reachable s0 ls s' _ _ s2 g2 h2 (fun x hx => hno x (List.mem_cons_of_mem _ hx))
+        (ReachableH.step l hr hs' (fun d hd => absurd hd (hno l List.mem_cons_self d))) hrun
+    · cases hrun
+
+/-- caller 1 leads (value 7), caller 2 joins, caller 3 is invoked afterwards and hits the cache -/
+def exSettledScript : List Label := [.invoke 1, .cacheCheck 1, .doEnter 1, .fnStart 1, .invoke 2, .cacheCheck 2,
+  .doEnter 2, .fnEnd 1 (.ok 7), .cacheSet 1, .doFinish 1, .wake 2, .invoke 3, .cacheCheck 3]
+
+example : ∃ s g h, Settled (exCfg 30) (fun _ => none) 0 s g h [1, 2, 3] ∧
+    Spec.C17.check (exCfg 30).expTime (e0Of (fun _ => none)) (specLog (exCfg 30) s g h [1, 2, 3] 1) = none := by
+  have hsome : (runH (exCfg 30) exInit EvLog.empty HLog.empty exSettledScript).isSome = true := by decide
+  obtain ⟨⟨s, g, h⟩, hrun⟩ := Option.isSome_iff_exists.1 hsome
+  have hfacts : (runH (exCfg 30) exInit EvLog.empty HLog.empty exSettledScript).map
+      (fun p => ((p.1.pc 1, p.1.pc 2, p.1.pc 3), p.2.2.order)) =
+      some ((.done (.ok 7), .done (.ok 7), .done (.ok 7)), [1]) := by decide
+  rw [hrun] at hfacts
+  simp only [Option.map_some, Option.some.injEq, Prod.mk.injEq] at hfacts
+  obtain ⟨⟨p1, p2, p3⟩, ho⟩ := hfacts
+  have st : Settled (exCfg 30) (fun _ => none) 0 s g h [1, 2, 3] :=
+    { run := runH_reachable exInit exSettledScript exInit EvLog.empty HLog.empty s g h
+        (by intro l hl d; simp [exSettledScript] at hl; rcases hl with h | h | h | h | h | h | h | h | h | h | h | h | h <;>
+          (rw [h]; exact fun hh => by cases hh))
+        ReachableH.refl hrun
+      now0 := Int.le_refl 0
+      quiet := by
+        intro c hc
+        simp only [List.mem_cons, List.not_mem_nil, or_false] at hc
+        rcases hc with h | h | h <;> subst h
+        · exact Or.inr ⟨_, p1⟩
+        · exact Or.inr ⟨_, p2⟩
+        · exact Or.inr ⟨_, p3⟩
+      sub := by intro l hl; rw [ho] at hl; simp at hl; subst hl; simp }
+  exact ⟨s, g, h, st, monitor_accepts st 1⟩
 
 end GoguVerif.Theorems.C17
